@@ -20,6 +20,8 @@ ENGINES = [
     {"name": "GridRec.tla", "path": "/verif/spec/GridRec.tla", "serves_properties": ["C02", "C06", "C10", "C03"], "kind_free_text": "CCF-grid sum-product / max-product: definition vs implemented recursion; GridOracle.tla dumps exact integer vectors"},
     {"name": "Density.tla", "path": "/verif/spec/Density.tla", "serves_properties": ["C03"], "kind_free_text": "FS-CRP joint density as a symbolic record of the abstract state"},
     {"name": "Chain.tla", "path": "/verif/spec/Chain.tla", "serves_properties": ["C15", "C19", "C13", "C14"], "kind_free_text": "chain driver state machine over option records; TraceChain.tla validates recorded event streams"},
+    {"name": "Concentration.tla", "path": "/verif/spec/Concentration.tla", "serves_properties": ["C13"], "kind_free_text": "Escobar-West parameter wiring as exact rationals; ConcentrationKN.tla for (K, n)"},
+    {"name": "Cache.tla", "path": "/verif/spec/Cache.tla", "serves_properties": ["C14"], "kind_free_text": "memo tables with real key functions under arbitrary histories"},
     {"name": "Forests.tla", "path": "/verif/spec/Forests.tla", "serves_properties": ["C01", "C03", "C04", "C06", "C07", "C08", "C09", "C11", "C12", "C16"], "kind_free_text": "canonical forest universe"},
 ]
 
@@ -78,6 +80,35 @@ CHECKS = {
                 "outlier-prior / cluster-size settings, and must equal the record evaluated with lgamma/log (1e-9); ==/hash must agree with "
                 "equality of abstractions.",
         "note": "Trusted: TLC, lgamma/log evaluation of the record by the harness, integer likelihood tables. p=1 excluded.",
+    },
+    "C13": {
+        "engine": "Concentration.tla",
+        "category": "model_checking",
+        "technique": "TLC proves the Escobar-West mixture identity on a rational grid and the (K,n) extraction on every forest; recording stubs for the three scipy draws; recorded chains; seeded distribution-level test",
+        "design_ref": "DESIGN.md 5 C13",
+        "text": "Concentration.tla computes, as exact rationals over 1 701 grid points (a, b, alpha, L=-log eta, K<=n<=6), the Beta parameters, "
+                "Gamma shapes and rate and the mixture weight as the code computes it, and TLC proves n*pi*r = s*(1-pi) (the density is "
+                "proportional to x^(a+K-2)(x+n)e^(-x(b-log eta))); shape a+K is refuted. ConcentrationKN.tla gives (K, n) with outliers "
+                "excluded for every forest. The real sampler is run with recording stubs in place of scipy's beta/bernoulli/gamma on every grid "
+                "point and both Bernoulli outcomes (parameters to 1e-12, own generator used, returned value); update_concentration_value must "
+                "pass TLC's (K, n) on every forest and store the value so later densities use it; recorded chains must show the value flowing "
+                "into the next entries. A seeded distribution-level comparison with the exact one-step CDF (KS, 6 000 draws x 4 settings) "
+                "decides when the draw structure differs from the stubs' expectations.",
+        "note": "Assumed, not evaluated by TLC: the Escobar-West lemma; scipy's rvs semantics. The KS test is a supplementary statistical oracle (threshold 0.035, fixed seeds).",
+    },
+    "C14": {
+        "engine": "Cache.tla",
+        "category": "model_checking",
+        "technique": "TLC model of the four memo tables with their real key functions under arbitrary call/alpha/clear/evict histories; shadow execution of every cached call against the wrapped original",
+        "design_ref": "DESIGN.md 5 C14",
+        "text": "Cache.tla models the memo tables and key functions (multiset of content digests, set of two digests, proposal key with alpha, "
+                "new-clone-tree key with the distribution by value) under all interleavings of calls, alpha changes, clears and evictions: "
+                "HitEqualsRecompute holds as implemented with and without the run-loop clearing protocol, and with the protocol alone; keying "
+                "by the set of digests or dropping alpha without the protocol is refuted. On the real code every call of the five cached entry "
+                "points - in six seeded chains with concentration updates and in spec-derived adversarial histories (permuted/duplicated child "
+                "arrays, alpha alternating on a reused kernel without clears) - is followed by the wrapped original on the same arguments and "
+                "the results must agree.",
+        "note": "Trusted: TLC; wrappers installed on module bindings (no source hooks); 64-bit digest collisions ignored. Sampled histories on the code side.",
     },
     "C15": {
         "engine": "TreeADT.tla + Chain.tla",
